@@ -6,7 +6,13 @@ synthesized data directories (lib/datadir.py) with -s key chains, -f field lists
 compared with the table computed by the Lean model `Report` (uvmodel C08).  Monitors: the
 property itself (calls / total / self / avg / min / max from the call trees by an independent
 tree walk, the telescoping sum per task, sortedness of the printed rows, all-zero self diff)
-evaluated on the implementation's output."""
+evaluated on the implementation's output.
+Extension (Uft/Model/ReportExt.lean): the report's rows are keyed by symbol NAME (several addresses
+per name, two modules, addresses without a symbol), `--task` with every task sort key and
+multi-digit tids, `--diff-policy percent`.  The model keeps the unrepaired behaviour of two findings
+behind flags (F-C08-SAMENAME: recursion tested by address although rows are names; F-C08-TIDSORT:
+`-s tid` compares the decimal strings); a table that equals the unrepaired model's and not the
+repaired one's is reported under the finding's id."""
 import json
 import os
 import re
@@ -96,28 +102,55 @@ class Case:
     """nf functions (ids 1..nf, id 0 = address 0), tasks = list of record lists
     [(typ, time, depth, fid)], forests = per task the call trees when the case is well formed"""
 
-    def __init__(self, name, cat, nf, sizes, tasks, max_stack=1024, forests=None):
+    tab = None                 # a SymTab for the name-keyed family (NCase)
+
+    def __init__(self, name, cat, nf, sizes, tasks, max_stack=1024, forests=None, tids=None):
         self.name, self.cat, self.nf, self.sizes, self.tasks = name, cat, nf, sizes, tasks
         self.max_stack, self.forests = max_stack, forests
+        self.tids = tids or [TID0 + i for i in range(len(tasks))]
 
     def to_json(self):
-        return {"name": self.name, "cat": self.cat, "nf": self.nf, "sizes": self.sizes,
-                "max_stack": self.max_stack, "tasks": self.tasks}
+        o = {"name": self.name, "cat": self.cat, "nf": self.nf, "sizes": self.sizes,
+             "max_stack": self.max_stack, "tasks": self.tasks, "tids": self.tids}
+        if self.forests is not None:
+            o["wf"] = True
+        return o
 
     @staticmethod
     def from_json(o):
-        c = Case(o["name"], o.get("cat", "corpus").replace("corpus-", ""), o["nf"], o.get("sizes") or [128] * o["nf"],
-                 [[tuple(r) for r in t] for t in o["tasks"]], o.get("max_stack", 1024))
+        tasks = [[tuple(r) for r in t] for t in o["tasks"]]
+        cat = o.get("cat", "corpus").replace("corpus-", "")
+        if o.get("table"):
+            c = NCase(o["name"], cat, SymTab.from_json(o["table"]), tasks, o.get("max_stack", 1024), tids=o.get("tids"))
+            c.own_table = True
+        else:
+            c = Case(o["name"], cat, o["nf"], o.get("sizes") or [128] * o["nf"], tasks, o.get("max_stack", 1024),
+                     tids=o.get("tids"))
         if o.get("wf"):
             c.forests = [forest_of(t) for t in c.tasks]
-            c.cat = "open" if any(n[2] is None for f in c.forests for n in walk_nodes(f)) else "wf"
+            if cat in ("corpus", "wf", "open"):
+                c.cat = "open" if any(n[2] is None for f in c.forests for n in walk_nodes(f)) else "wf"
         return c
 
-    def fname(self, fid):
-        return "<0>" if fid == 0 else "f%02d" % fid
+    def fname(self, key):
+        """the printed name of the row with the model key `key`"""
+        return "<0>" if key == 0 else "f%02d" % key
 
-    def write(self, d):
-        syms = [(0x100 * i, self.sizes[i - 1], self.fname(i)) for i in range(1, self.nf + 1)]
+    def key_of(self, fid):
+        """what a row is keyed by in the oracle: the function's name"""
+        return self.fname(fid)
+
+    def addr_of(self, fid):
+        return 0 if fid == 0 else DD.BASE + 0x100 * fid
+
+    def size_of_key(self, name):
+        return self.sizes[int(name[1:]) - 1]
+
+    def table_str(self):
+        """the driver's <addr id>:<name id>:<has symbol>:<size> table (1-1 here)"""
+        return "0:0:0:0 " + " ".join("%d:%d:1:%d" % (i, i, self.sizes[i - 1]) for i in range(1, self.nf + 1))
+
+    def records(self):
         tasks = []
         for ti, recs in enumerate(self.tasks):
             rl = []
@@ -127,10 +160,14 @@ class Case:
                 elif typ == 3:
                     addr = EVENT_ID
                 else:
-                    addr = 0 if fid == 0 else DD.BASE + 0x100 * fid
+                    addr = self.addr_of(fid)
                 rl.append(DD.Rec(time % M64, TYPCH[typ], depth, addr, more=False))
-            tasks.append(DD.Task(TID0 + ti, rl, pid=TID0))
-        DD.DataDir(syms, tasks, max_stack=self.max_stack).write(d)
+            tasks.append(DD.Task(self.tids[ti], rl, pid=self.tids[0]))
+        return tasks
+
+    def write(self, d):
+        syms = [(0x100 * i, self.sizes[i - 1], self.fname(i)) for i in range(1, self.nf + 1)]
+        DD.DataDir(syms, self.records(), max_stack=self.max_stack).write(d)
 
     def model_streams(self):
         out = []
@@ -141,6 +178,105 @@ class Case:
 
     def model_sizes(self):
         return " ".join("%d:%d" % (i, self.sizes[i - 1]) for i in range(1, self.nf + 1))
+
+
+LIBBASE = 0x7f1000000000
+LIBPATH = "/synth/libdup.so"
+NAMEPOOL = ["dup", "twin", "Zed", "aa", "f01", "x"]
+NA = 12                     # address ids of the name-keyed family
+
+
+class SymTab:
+    """the symbol table of the name-keyed family: address ids 1..NA -> (address, name or None, symbol size);
+    several addresses share a name (same module, the other module, an offset inside one symbol),
+    some addresses have no symbol (inside a map and outside every map)"""
+
+    def __init__(self, ent):
+        self.ent = ent                      # aid -> {"addr", "name" (None = no symbol), "size", "mod", "rel", "symbol" (owns a sym line)}
+        names = {"<0>"} | {self.name(a) for a in ent}
+        self.names = sorted(names)          # strcmp order (ASCII)
+        self.nid = {n: i for i, n in enumerate(self.names)}
+
+    @staticmethod
+    def generate(rng):
+        ent = {}
+        mods = {1: 0, 2: 0, 3: 1}
+        nms = {1: "dup", 2: "dup", 3: "dup"}
+        for a in range(4, 9):
+            mods[a] = rng.choice([0, 0, 1])
+            nms[a] = rng.choice(NAMEPOOL)
+        for a in range(1, 9):
+            base = DD.BASE if mods[a] == 0 else LIBBASE
+            ent[a] = {"addr": base + 0x100 * a, "name": nms[a], "size": rng.choice([16, 32, 48, 100, 128, 200]),
+                      "mod": mods[a], "rel": 0x100 * a, "symbol": True}
+        k = rng.randint(1, 8)               # a second address inside the symbol of k
+        ent[9] = dict(ent[k], addr=ent[k]["addr"] + 8, symbol=False)
+        ent[10] = {"addr": DD.BASE + 0xe00, "name": None, "size": 0, "mod": 0, "rel": 0xe00, "symbol": False}
+        ent[11] = {"addr": DD.BASE + 0xe10, "name": None, "size": 0, "mod": 0, "rel": 0xe10, "symbol": False}
+        ent[12] = {"addr": 0x600040, "name": None, "size": 0, "mod": -1, "rel": 0, "symbol": False}
+        return SymTab(ent)
+
+    def name(self, a):
+        if a == 0:
+            return "<0>"
+        e = self.ent[a]
+        return e["name"] if e["name"] is not None else "<%x>" % e["addr"]
+
+    def to_json(self):
+        return {str(a): e for a, e in self.ent.items()}
+
+    @staticmethod
+    def from_json(o):
+        return SymTab({int(a): e for a, e in o.items()})
+
+
+class NCase(Case):
+    """a data set over a SymTab: records name address ids, rows are names"""
+    own_table = False
+
+    def __init__(self, name, cat, tab, tasks, max_stack=1024, forests=None, tids=None):
+        Case.__init__(self, name, cat, max(tab.ent), [], tasks, max_stack, forests, tids)
+        self.tab = tab
+
+    def to_json(self):
+        o = Case.to_json(self)
+        o["table"] = self.tab.to_json()
+        return o
+
+    def fname(self, key):
+        return self.tab.names[key] if key < len(self.tab.names) else "?%d" % key
+
+    def key_of(self, fid):
+        return self.tab.name(fid)
+
+    def addr_of(self, fid):
+        return 0 if fid == 0 else self.tab.ent[fid]["addr"]
+
+    def table_str(self):
+        t = self.tab
+        return "0:%d:0:0 " % t.nid["<0>"] + " ".join(
+            "%d:%d:%d:%d" % (a, t.nid[t.name(a)], 1 if e["name"] is not None else 0, e["size"])
+            for a, e in sorted(t.ent.items()))
+
+    def model_sizes(self):
+        return self.table_str()
+
+    def write(self, d):
+        t = self.tab
+        exe = [(e["rel"], e["size"], e["name"]) for a, e in sorted(t.ent.items()) if e["symbol"] and e["mod"] == 0]
+        lib = [(e["rel"], e["size"], e["name"]) for a, e in sorted(t.ent.items()) if e["symbol"] and e["mod"] == 1]
+        dd = DD.DataDir(exe, self.records(), max_stack=self.max_stack)
+        over = {
+            "sid-%s.map" % DD.SID: (
+                "%x-%x r-xp 00000000 00:00 0                          %s\n"
+                "%x-%x r-xp 00000000 00:00 0                          %s\n"
+                "7ffd00000000-7ffd00021000 rw-p 00000000 00:00 0                          [stack]\n"
+                % (DD.BASE, DD.BASE + 0x2000, DD.EXE, LIBBASE, LIBBASE + 0x2000, LIBPATH)).encode(),
+            os.path.basename(LIBPATH) + ".sym": (
+                "\n".join(["# symbols: %d" % len(lib), "# path name: " + LIBPATH, "# build-id: "] +
+                          ["%016x %08x T %s" % x for x in sorted(lib)]) + "\n").encode(),
+        }
+        dd.write(d, overrides=over)
 
 
 def forest_of(recs):
@@ -242,11 +378,93 @@ def gen_case(rng, idx, cat, sizes):
     return c
 
 
+TIDPOOL = [7, 9, 10, 42, 99, 100, 101, 250, 999, 1000, 1001, 12345, 99999, 100000]
+
+
+def gen_tids_case(rng, idx, sizes):
+    """multi-digit tids for the task report"""
+    ntask = rng.choice([2, 3, 4, 5])
+    tids = rng.sample(TIDPOOL, ntask)
+    tasks = []
+    for ti in range(ntask):
+        recs = gen_walk(rng, NF, rng.choice([2, 6, 14, 30]), rng.choice([2, 4, 8]), 2000 + rng.randint(0, 300),
+                        rng.choice([STEPS, [0, 0, 1]]))          # small steps: ties on total/self/func
+        if rng.random() < 0.3:
+            recs = recs[:rng.randint(1, len(recs))]
+        tasks.append(recs)
+    c = Case("tids%d" % idx, "tids", NF, sizes, tasks, 1024, tids=tids)
+    c.forests = [forest_of(t) for t in tasks]
+    return c
+
+
+def named_shapes(tab):
+    """fixed shapes over the table: same name nested (same module, other module, offset inside the symbol),
+    true recursion next to it, indirect nesting, unnamed addresses nested in each other, open calls"""
+    t = 2000
+    solo = next((a for a in range(4, 9) if tab.ent[a]["name"] != "dup"), 4)
+
+    def nest(chain, step=10, close=True):
+        recs, tm = [], t
+        for d, f in enumerate(chain):
+            recs.append((0, tm, d, f))
+            tm += step
+        if close:
+            for d in range(len(chain) - 1, -1, -1):
+                tm += step + d
+                recs.append((1, tm, d, chain[d]))
+        return recs
+    shapes = {
+        "same-module": nest([solo, 1, 2, solo]),
+        "other-module": nest([1, 3]),
+        "three-deep": nest([1, 2, 3, 1]),
+        "recursion-and-alias": nest([1, 1, 2, 2]),
+        "indirect": nest([1, solo, 2, solo, 3]),
+        "inner-offset": nest([9, next(a for a in range(1, 9) if tab.ent[a]["addr"] + 8 == tab.ent[9]["addr"])]),
+        "unnamed": nest([10, 11, 10, 12, 12]),
+        "open": nest([solo, 1, 2, 3], close=False),
+        "open-alias-closed": nest([1, 2], close=False) + [(0, 2050, 2, 3), (1, 2060, 2, 3), (0, 2070, 2, 1)],
+        "siblings": [(0, 2000, 0, 1), (1, 2010, 0, 1), (0, 2020, 0, 2), (1, 2040, 0, 2), (0, 2050, 0, 3), (1, 2090, 0, 3)],
+    }
+    out = []
+    for nm, recs in shapes.items():
+        c = NCase("shape-" + nm, "nopen" if nm.startswith("open") else "nwf", tab, [recs])
+        c.forests = [forest_of(recs)]
+        out.append(c)
+    two = NCase("shape-two-tasks", "nwf", tab, [shapes["same-module"], shapes["other-module"]])
+    two.forests = [forest_of(x) for x in two.tasks]
+    out.append(two)
+    return out
+
+
+def gen_named_case(rng, idx, cat, tab):
+    ntask = rng.choice([1, 1, 2, 3])
+    tasks = []
+    for ti in range(ntask):
+        # few addresses in play: same-name nesting is frequent
+        live = rng.sample(range(1, NA + 1), rng.choice([3, 5, 8, NA]))
+        recs = gen_walk(rng, len(live), rng.choice([2, 6, 14, 30, 60]), rng.choice([2, 4, 8, 14]),
+                        2000 + rng.randint(0, 300))
+        recs = [(t, tm, d, live[f - 1] if t in (0, 1) else f) for (t, tm, d, f) in recs]
+        if cat == "nopen":
+            recs = recs[:rng.randint(1, len(recs))]
+        if cat == "nlate":
+            a = rng.randint(0, max(0, len(recs) - 2))
+            recs = recs[a:]
+            if rng.random() < 0.5:
+                recs = recs[:rng.randint(1, len(recs))]
+        tasks.append(recs)
+    c = NCase("%s%d" % (cat, idx), cat, tab, tasks, rng.choice([1024, 1024, 1024, 3, 5]) if cat == "nlate" else 1024)
+    if cat in ("nwf", "nopen"):
+        c.forests = [forest_of(t) for t in tasks]
+    return c
+
+
 # ---------------------------------------------------------------------------
 # the property, computed from the call trees (independent of the model)
 def oracle(case):
-    """per function id: calls, total (outermost invocations), self, all durations, all selfs;
-    per task: sum of the top-level durations"""
+    """per function NAME (a row of the report; with a 1-1 symbol table that is the function):
+    calls, total (the invocations that do not run inside an invocation of the same row), self,
+    all durations, all selfs; per task: sum of the top-level durations"""
     fn = {}
     top = []
     for ti, roots in enumerate(case.forests):
@@ -256,6 +474,7 @@ def oracle(case):
 
         def walk(n, anc):
             f, t0, t1, kids = n
+            f = case.key_of(f)
             end = last if t1 is None else t1
             dur = end - t0
             kd = 0
@@ -281,13 +500,22 @@ def oracle_row(fid, e, size):
             e["self"], sum(e["selfs"]) // c, min(e["selfs"]), max(e["selfs"])]
 
 
+def fmt_pct(base, pair):
+    """print_diff_percent (colour off)"""
+    if base == 0 or pair == 0:
+        return "NA"
+    pc = 100.0 * i64(pair - base) / base
+    pc = 999.99 if pc > 999.99 else -999.99 if pc < -999.99 else pc
+    return ("%+7.2f%%" % pc).strip()
+
+
 # ---------------------------------------------------------------------------
 # running uftrace and reading its tables
 def split_header(line):
     return [x for x in re.split(r"\s{2,}", line.strip()) if x]
 
 
-def parse_table(out, kind):
+def parse_table(out, kind, pct=False):
     """kind: 'func' | 'task' | 'diff' | 'difffull' -> (fields, [(name, [raw cells])]) or None"""
     lines = [l for l in out.split("\n") if l.strip() and not l.startswith("#")]
     if len(lines) < 2 or "====" not in lines[1]:
@@ -307,7 +535,7 @@ def parse_table(out, kind):
             if kind == "diff":
                 w = 11
             elif kind == "difffull":
-                w = 32 if f in ("call", "size") or f.endswith("stdv") else 35
+                w = 32 if pct or f in ("call", "size") or f.endswith("stdv") else 35
             elif f == "tid":
                 w = 7
             else:
@@ -318,7 +546,7 @@ def parse_table(out, kind):
     return fields, rows
 
 
-def canon_impl(parsed, kind):
+def canon_impl(parsed, kind, pct=False):
     fields, rows = parsed
     out = []
     for name, cells in rows:
@@ -327,14 +555,14 @@ def canon_impl(parsed, kind):
             if f.endswith("stdv"):
                 continue
             if kind == "diff":
-                cc.append(canon_diff_cell(c) if f not in ("call", "size") else str(int(c)))
+                cc.append(str(int(c)) if f in ("call", "size") else c.strip().replace("N/A", "NA") if pct else canon_diff_cell(c))
             elif kind == "difffull":
                 if f in ("call", "size"):
                     a, b, d = c.split()
                     cc.append("%d/%d/%d" % (int(a), int(b), int(d)))
                 else:
                     cc.append("%s/%s/%s" % (canon_time_cell(c[0:10]), canon_time_cell(c[12:22]),
-                                            canon_diff_cell(c[24:35])))
+                                            c[24:32].strip().replace("N/A", "NA") if pct else canon_diff_cell(c[24:35])))
             elif f in ("call", "size", "func", "tid"):
                 cc.append(str(int(c)))
             else:
@@ -368,7 +596,7 @@ def canon_rows(case, rows, fields, kind):
         if kind == "task":
             name = "prog"
             cc = [fmt_time(r[3]) if f == "total" else fmt_time(r[7]) if f == "self" else
-                  str(TID0 + r[0]) if f == "tid" else str(r[1]) for f in fields]
+                  str(r[0]) if f == "tid" else str(r[1]) for f in fields]
         else:
             name = case.fname(r[0])
             cc = [str(r[ROWIDX[f]]) if f in ("call", "size") else fmt_time(r[ROWIDX[f]]) for f in fields]
@@ -376,7 +604,7 @@ def canon_rows(case, rows, fields, kind):
     return out
 
 
-def canon_drows(case, drows, fields, kind):
+def canon_drows(case, drows, fields, kind, pct=False):
     out = []
     for b, p in drows:
         cc = []
@@ -386,15 +614,17 @@ def canon_drows(case, drows, fields, kind):
                 d = i64(y - x)
                 cc.append(str(d) if kind == "diff" else "%d/%d/%d" % (x, y, d))
             elif kind == "diff":
-                cc.append(fmt_diff_time(x, y))
+                cc.append(fmt_pct(x, y) if pct else fmt_diff_time(x, y))
             else:
-                cc.append("%s/%s/%s" % (fmt_time(x), fmt_time(y), fmt_diff_time(x, y)))
+                cc.append("%s/%s/%s" % (fmt_time(x), fmt_time(y), fmt_pct(x, y) if pct else fmt_diff_time(x, y)))
         out.append(case.fname(b[0]) + ":" + ",".join(cc))
     return out
 
 
 def default_fields(opt):
     if opt.get("task"):
+        if opt.get("fields"):
+            return [f for f in ["total", "self", "tid", "func"] if f in opt["fields"].split(",")]
         return ["total", "self", "tid", "func"]
     if opt.get("fields"):
         fs = opt["fields"]
@@ -433,6 +663,8 @@ def uft_args(opt, dirs):
             pol.append("full")
         if opt.get("noabs"):
             pol.append("no-abs")
+        if opt.get("pct"):
+            pol.append("percent")
         if pol:
             a += ["--diff-policy", ",".join(pol)]
     return a
@@ -444,14 +676,28 @@ def model_query(cases, ci, opt):
     avg = 0 if opt.get("fields") else opt.get("avg", 0)
     sk = opt.get("sort") or "-"
     if opt.get("task"):
-        return "task %d %s | | %s" % (c.max_stack, sk, c.model_streams())
+        # {FIX}: 1 = the repaired model, 0 = the code before the repair (F-C08-TIDSORT)
+        return "taskx %d %s {FIX} | %s | %s" % (c.max_stack, sk, " ".join(map(str, c.tids)), c.model_streams())
     if opt.get("diff") is not None:
         p = cases[opt["diff"]]
         col = opt.get("column")
+        if not opt.get("dup"):
+            return "diffx %d:%d %d %s %d %d %d {FIX} | %s | %s | # | %s" % (
+                c.max_stack, p.max_stack, avg, sk, 2 if col is None else col, 0 if opt.get("noabs") else 1,
+                1 if opt.get("pct") else 0, c.table_str(), c.model_streams(), p.model_streams())
         return "diff %d:%d %d %s %d %d | %s | %s | # | %s" % (
             c.max_stack, p.max_stack, avg, sk, 2 if col is None else col, 0 if opt.get("noabs") else 1,
             c.model_sizes(), c.model_streams(), p.model_streams())
+    if not opt.get("dup"):
+        # {FIX}: 1 = the repaired model, 0 = before the repair (F-C08-SAMENAME); with a 1-1 symbol table the two
+        # differ only on malformed streams (an EXIT record whose address is not the open frame's)
+        return "funcx %d %d %s {FIX} | %s | %s" % (c.max_stack, avg, sk, c.table_str(), c.model_streams())
     return "func %d %d %s | %s | %s" % (c.max_stack, avg, sk, c.model_sizes(), c.model_streams())
+
+
+def finding_of(case, opt):
+    """the finding whose unrepaired model a `{FIX}` query switches to"""
+    return FINDING_TID if opt.get("task") else FINDING_NAME
 
 
 def rand_sort(rng, opt):
@@ -477,13 +723,24 @@ def canon_key(k, opt):
     return k.replace("-", "_") if not avg else k
 
 
-def options_for(rng, case, ci, ncases, tier):
-    """the report invocations made on one directory"""
+def options_for(rng, case, ci, fam, tier):
+    """the report invocations made on one directory; `fam` = the directories it may be diffed against
+    (same symbol table)"""
+    quick = tier == "quick"
+    if case.cat == "tids":
+        # the task report: every task sort key alone and in chains, multi-digit tids
+        opts = [{"task": True}] + [{"task": True, "sort": k} for k in TASKKEYS]
+        opts += [{"task": True, "sort": k} for k in ("name,tid", "func,tid", "tid,total", "self,name,tid", "pid")]
+        for _ in range(2 if quick else 6):
+            opts.append({"task": True, "sort": ",".join(rng.sample(TASKKEYS, rng.choice([2, 3])))})
+        opts.append({"task": True, "fields": "tid,func", "sort": "tid"})
+        return opts
+    named = case.tab is not None
     opts = [{}, {"fields": "all"}, {"avg": 1}, {"avg": 2}, {"task": True},
             {"diff": ci}, {"diff": ci, "full": True, "fields": "all"}]
     for k in SORTKEYS[(ci % 3)::3]:
         opts.append({"fields": "all", "sort": k})
-    nrand = 4 if tier == "quick" else 10
+    nrand = (3 if named else 4) if quick else 10
     for _ in range(nrand):
         o = {}
         r = rng.random()
@@ -502,8 +759,9 @@ def options_for(rng, case, ci, ncases, tier):
         for sp in DUPSPECS:
             opts.append({"fields": "all", "sort": sp, "dup": True})
     # diff against another directory
-    other = (ci + 1 + rng.randrange(max(1, ncases - 1))) % ncases
-    for _ in range(2 if tier == "quick" else 4):
+    others = [k for k in fam if k != ci] or [ci]
+    other = rng.choice(others)
+    for _ in range(2 if quick else 4):
         o = {"diff": rng.choice([other, other, ci]), "column": rng.choice([None, 0, 1, 2])}
         if rng.random() < 0.5:
             o["full"] = True
@@ -514,17 +772,45 @@ def options_for(rng, case, ci, ncases, tier):
         if rng.random() < 0.7:
             o["sort"] = rng.choice(SORTKEYS + ["total,func", "call,self"])
         opts.append(o)
+    # --diff-policy percent: against itself, and against another directory with each sort key in turn
+    # (figures that are not exactly printable / beyond 2^26 are left to the absolute policy: cmp_pcnt computes in double)
+    if case.cat not in ("big", "lost", "inv"):
+        opts.append({"diff": ci, "pct": True, "full": rng.random() < 0.5, "fields": rng.choice(["all", None])})
+        for j in range(2 if quick else 5):
+            o = {"diff": other, "pct": True, "sort": SORTKEYS[(ci + 5 * j) % len(SORTKEYS)],
+                 "fields": rng.choice(["all", "all", "total,self,call"]), "column": rng.choice([None, None, 2, 0, 1])}
+            if rng.random() < 0.35:
+                o["full"] = True
+            if rng.random() < 0.4:
+                o["noabs"] = True
+            if rng.random() < 0.25:
+                o["sort"] += "," + rng.choice(["func", "call", "self"])
+            opts.append(o)
+    for o in opts:
+        if "fields" in o and o["fields"] is None:
+            del o["fields"]
+        if "full" in o and not o["full"]:
+            del o["full"]
     return opts
 
 
+def pcnt_of(d, base):
+    from fractions import Fraction
+    return Fraction(0) if base == 0 else Fraction(100 * d, base)
+
+
 def abs_tie(drows, opt):
-    """two rows whose differences on a sort key are +d and -d (d != 0)"""
+    """two rows whose differences (percent policy: percentages) on a sort key are +d and -d (d != 0)"""
     avg = 0 if opt.get("fields") else opt.get("avg", 0)
     for k in (opt.get("sort") or ("total" if not avg else "total_avg" if avg == 1 else "self_avg")).split(","):
         k = canon_key(k, opt).replace("_", "-")
         if k == "func" or k not in ROWIDX:
             continue
         ds = [i64(p[ROWIDX[k]] - b[ROWIDX[k]]) for b, p in drows]
+        if opt.get("pct"):
+            if any(v[ROWIDX[k]] >= 1 << 26 for bp in drows for v in bp):
+                return True                     # not exact in double: the order of near-equal percentages is open
+            ds = [pcnt_of(d, b[ROWIDX[k]]) for d, (b, p) in zip(ds, drows)]
         if any(d != 0 and -d in ds for d in ds):
             return True
     return False
@@ -533,6 +819,19 @@ def abs_tie(drows, opt):
 DUPSPECS = ["total,total", "total,self,total", "total,total,self", "call,call,func", "self,call,self,func",
             "func,func,total", "size,call,size"]
 FINDING_DUP = "F-C08-DUP"
+FINDING_NAME = "F-C08-SAMENAME"
+FINDING_TID = "F-C08-TIDSORT"
+FINDING_TEXT = {
+    FINDING_NAME: "report keys its rows by symbol name but report_update_node tests recursion by address: an invocation "
+                  "running inside a different function of the same name (static functions of two files, the same name in "
+                  "two modules, overloads demangled alike) is counted as outermost, the row's Total adds nested durations "
+                  "and can exceed the run time",
+    FINDING_TID: "report --task -s tid compares the tids as strings (strcmp on the decimal text): 100 sorts before 99, the "
+                 "TID column is in no numeric order",
+}
+FINDING_THEOREM = {FINDING_NAME: "c08_named_total_exact / c08_prefix_samename_witness",
+                   FINDING_TID: "c08_task_rows_sorted / c08_prefix_tid_sort_witness"}
+TASKKEYS = ["total", "self", "func", "tid", "name"]
 
 
 def kind_of(opt):
@@ -593,12 +892,22 @@ def run(ctx):
     ncorpus = len(cases)
     sizes = [rng.choice([16, 32, 48, 100, 128, 200, 256]) for _ in range(NF)]
     for c in cases:
-        c.nf, c.sizes = NF, sizes
+        if c.tab is None:
+            c.nf, c.sizes = NF, sizes
     plan = [("wf", 40), ("open", 30), ("late", 12), ("lost", 25), ("inv", 15), ("ovf", 10), ("big", 8)]
     mult = 1 if quick else 12
     for cat, n in plan:
         for i in range(n * mult):
             cases.append(gen_case(rng, i, cat, sizes))
+    # the task report with multi-digit tids
+    for i in range(14 * mult):
+        cases.append(gen_tids_case(rng, i, sizes))
+    # the name-keyed family: one symbol table (several addresses per name, two modules, unnamed addresses)
+    tab = SymTab.generate(rng)
+    cases += named_shapes(tab)
+    for cat, n in [("nwf", 34), ("nopen", 22), ("nlate", 8)]:
+        for i in range(n * mult):
+            cases.append(gen_named_case(rng, i, cat, tab))
 
     root = os.path.join(ctx.scratch, "data")
     os.makedirs(root)
@@ -608,9 +917,12 @@ def run(ctx):
         c.write(d)
         dirs.append(d)
 
+    fam_plain = [i for i, c in enumerate(cases) if c.tab is None]
+    fam_named = [i for i, c in enumerate(cases) if c.tab is not None and not c.own_table]
     jobs = []       # (case index, opt)
     for ci, c in enumerate(cases):
-        for o in options_for(rng, c, ci, len(cases), ctx.tier):
+        fam = fam_plain if c.tab is None else [ci] if c.own_table else fam_named
+        for o in options_for(rng, c, ci, fam, ctx.tier):
             jobs.append((ci, o))
 
     def runjob(j):
@@ -622,6 +934,10 @@ def run(ctx):
     queries = {}
     for ci, o in jobs:
         q = model_query(cases, ci, o)
+        if "{FIX}" in q:
+            queries.setdefault(q.replace("{FIX}", "1"), len(queries))
+            queries.setdefault(q.replace("{FIX}", "0"), len(queries))
+            continue
         queries.setdefault(q, len(queries))
         if o.get("dup"):
             queries.setdefault("funcpre" + q[4:], len(queries))
@@ -637,7 +953,11 @@ def run(ctx):
 
     st = {"disagree": 0, "monitor": 0, "cells": 0, "exact_cells": 0, "rows": 0, "sorted_checked": 0,
           "oracle_rows": 0, "telescope_checked": 0, "selfdiff_checked": 0, "invalid_key": 0,
-          "diff_order_ambiguous": 0, "dup_jobs": 0, "dup_as_repaired": 0, "dup_as_unrepaired": 0}
+          "diff_order_ambiguous": 0, "dup_jobs": 0, "dup_as_repaired": 0, "dup_as_unrepaired": 0,
+          "flag_jobs": 0, "flag_jobs_models_differ": 0, "task_sorted_checked": 0, "pct_jobs": 0,
+          "named_oracle_rows": 0, "total_le_wall_checked": 0}
+    as_unrepaired = {FINDING_NAME: 0, FINDING_TID: 0}
+    finding_hits = {FINDING_NAME: [], FINDING_TID: []}
     reported = [0]
     samples = []
     distinct = set()
@@ -664,8 +984,19 @@ def run(ctx):
     for ji, ((ci, o), (rc, out, err)) in enumerate(zip(jobs, results)):
         case = cases[ci]
         kind = kind_of(o)
+        pct = bool(o.get("pct"))
         q = model_query(cases, ci, o)
-        ml = mout[queries[q]]
+        ml_pre = None
+        if "{FIX}" in q:
+            st["flag_jobs"] += 1
+            ml = mout[queries[q.replace("{FIX}", "1")]]
+            ml_pre = mout[queries[q.replace("{FIX}", "0")]]
+            if ml_pre != ml:
+                st["flag_jobs_models_differ"] += 1
+        else:
+            ml = mout[queries[q]]
+        if pct:
+            st["pct_jobs"] += 1
         bycat[case.cat] = bycat.get(case.cat, 0) + 1
         distinct.add((ci, json.dumps(o, sort_keys=True)))
         if o.get("dup"):
@@ -704,22 +1035,32 @@ def run(ctx):
             continue
         if ml == "invalid-sort-key":
             st["invalid_key"] += 1
-            if "invalid sort key" not in err:
+            if "invalid sort key" not in err + out:
                 report("corr", ci, o, "model rejects the sort key, uftrace does not",
                        {"stdout": out[-600:], "stderr": err[-300:], "theorem": "correspondence(convert_sort_keys)"}, True)
             continue
-        parsed = parse_table(out, kind) if rc == 0 else None
+        parsed = parse_table(out, kind, pct) if rc == 0 else None
         if parsed is None:
             report("corr", ci, o, "no table printed (rc=%d)" % rc,
                    {"stdout": out[-600:], "stderr": err[-600:], "model": ml[:300], "theorem": "correspondence"}, True)
             continue
-        fields, impl = canon_impl(parsed, kind)
-        if kind in ("diff", "difffull"):
-            mr = parse_model_drows(ml)
-            model = canon_drows(case, mr, fields, kind) if mr is not None else None
-        else:
-            mr = parse_model_rows(ml)
-            model = canon_rows(case, mr, fields, kind) if mr is not None else None
+        fields, impl = canon_impl(parsed, kind, pct)
+
+        def model_table(line):
+            if kind in ("diff", "difffull"):
+                rows = parse_model_drows(line)
+                return rows, (canon_drows(case, rows, fields, kind, pct) if rows is not None else None)
+            rows = parse_model_rows(line)
+            return rows, (canon_rows(case, rows, fields, kind) if rows is not None else None)
+        mr, model = model_table(ml)
+        mr_pre, model_pre = model_table(ml_pre) if ml_pre is not None and ml_pre != ml else (None, None)
+
+        def tie_only(tbl, rows):
+            """the table differs from the model's in the order of rows only, and the comparator is ambiguous:
+            |+d| = |-d|: cmp_diff says "smaller" in both directions (utils/report.c:363-367), the row order then
+            depends on the shape of the red-black tree, which the list model does not have"""
+            return (tbl is not None and impl != tbl and kind in ("diff", "difffull") and not o.get("noabs")
+                    and o.get("column") in (None, 2) and sorted(impl) == sorted(tbl) and abs_tie(rows, o))
         want_fields = default_fields(o)
         st["rows"] += len(impl)
         for r in impl:
@@ -737,18 +1078,39 @@ def run(ctx):
             if ci not in oracles:
                 oracles[ci] = oracle(case)
             fn, top = oracles[ci]
-            got = dict(r.split(":", 1) for r in impl)
+            # the Size column is no part of the property (and with several symbols per name it is the last
+            # updated symbol's): compared with the model only when the table is name-keyed
+            keep = [i for i, f in enumerate(fields) if not (f == "size" and case.tab is not None)]
+            got = {}
+            for r in impl:
+                nm, cells = r.split(":", 1)
+                cells = cells.split(",")
+                got[nm] = ",".join(cells[i] for i in keep)
             wantrows = {}
-            for fid, e in fn.items():
-                orow = oracle_row(fid, e, case.sizes[fid - 1])
-                wantrows[case.fname(fid)] = ",".join(
-                    str(orow[ROWIDX[f]]) if f in ("call", "size") else fmt_time(orow[ROWIDX[f]]) for f in fields)
+            for nm, e in fn.items():
+                orow = oracle_row(nm, e, case.size_of_key(nm) if case.tab is None else 0)
+                wantrows[nm] = ",".join(
+                    str(orow[ROWIDX[f]]) if f in ("call", "size") else fmt_time(orow[ROWIDX[f]])
+                    for f in (fields[i] for i in keep))
             st["oracle_rows"] += len(wantrows)
+            if case.tab is not None:
+                st["named_oracle_rows"] += len(wantrows)
             if got != wantrows:
                 diffs = {k: (got.get(k), wantrows.get(k)) for k in set(got) | set(wantrows)
                          if got.get(k) != wantrows.get(k)}
                 bad = ("statistics differ from the call trees (fields %s): {function: (printed, exact)} = %s"
-                       % (fields, dict(list(diffs.items())[:4])), "c08_calls_exact/c08_total_exact/c08_self_exact/c08_min_max_avg")
+                       % ([fields[i] for i in keep], dict(list(diffs.items())[:4])),
+                       "c08_named_calls_exact/c08_named_total_exact/c08_named_self_exact" if case.tab is not None else
+                       "c08_calls_exact/c08_total_exact/c08_self_exact/c08_min_max_avg")
+            # no row's Total exceeds the summed duration of the top-level calls (outermost invocations do not overlap)
+            if not bad and all(re.fullmatch(r"\d+", r.split(":")[1].split(",")[fields.index("total")]) for r in impl):
+                st["total_le_wall_checked"] += 1
+                for r in impl:
+                    tv = int(r.split(":")[1].split(",")[fields.index("total")])
+                    if tv > sum(top):
+                        bad = ("Total of row %s (%d ns) exceeds the summed duration of all top-level calls (%d ns)"
+                               % (r.split(":")[0], tv, sum(top)), "c08_named_total_le_toplevel")
+                        break
             # telescoping on the printed Self column (all cells exact)
             if not bad and all(re.fullmatch(r"\d+", r.split(":")[1].split(",")[fields.index("self")]) for r in impl):
                 st["telescope_checked"] += 1
@@ -767,7 +1129,7 @@ def run(ctx):
                 for r in impl:
                     cells = r.split(":")[1].split(",")
                     got[int(cells[fields.index("tid")])] = cells[fields.index("total")]
-                want = {TID0 + ti: fmt_time(v) for ti, v in enumerate(top) if case.forests[ti]}
+                want = {case.tids[ti]: fmt_time(v) for ti, v in enumerate(top) if case.forests[ti]}
                 if got != want:
                     bad = ("--task Total time %s != summed top-level durations %s" % (got, want), "c08_self_telescopes")
         if kind == "func" and o.get("sort") and not bad and case.cat not in ("inv", "lost"):
@@ -791,11 +1153,39 @@ def run(ctx):
                         bad = ("rows are not in descending order of -s %s: %s before %s" % (o["sort"], a, b),
                                "c08_sorted_by_keys")
                         break
+        if kind == "task" and not bad and set(fields) >= {"tid"} and case.cat not in ("inv", "lost"):
+            # rows follow the requested task keys: total, self, func (number of functions) descending,
+            # tid ascending as a NUMBER, name = the task's comm (all alike here)
+            vecs = []
+            for r in impl:
+                cells = dict(zip(fields, r.split(":", 1)[1].split(",")))
+                v = []
+                for k in (o.get("sort") or "total").split(","):
+                    if k == "name":
+                        continue
+                    x = cells.get(k)
+                    if x is None or not x.isdigit():
+                        v = None
+                        break
+                    v.append(-int(x) if k == "tid" else int(x))
+                if v is None:
+                    vecs = None
+                    break
+                vecs.append(v)
+            if vecs is not None:
+                st["task_sorted_checked"] += 1
+                for a, b in zip(vecs, vecs[1:]):
+                    if a < b:
+                        bad = ("--task rows are not in the order of -s %s (tid ascending as a number, the others descending): "
+                               "%s before %s" % (o.get("sort") or "total", a, b), "c08_task_rows_sorted")
+                        break
         if kind in ("diff", "difffull") and o["diff"] == ci and not bad:
             st["selfdiff_checked"] += 1
             for r in impl:
                 for cell in r.split(":", 1)[1].split(","):
                     dl = cell.split("/")[-1]
+                    if pct and dl in ("+0.00%", "NA"):
+                        continue                        # N/A: the figure itself is 0
                     if dl != "0":
                         bad = ("--diff of a directory against itself shows a difference: " + r, "c08_diff_self_zero")
                         break
@@ -804,20 +1194,47 @@ def run(ctx):
             if not bad and kind == "difffull" and any(c.split("/")[0] != c.split("/")[1]
                                                       for r in impl for c in r.split(":", 1)[1].split(",")):
                 bad = ("--diff of a directory against itself: base and pair figures differ", "c08_diff_self_zero")
+        if model_pre is not None and (impl == model_pre or tie_only(model_pre, mr_pre)) and impl != model \
+                and not tie_only(model, mr) and fields == want_fields:
+            # the implementation behaves like the model of the code BEFORE the repair of a finding
+            fid = finding_of(case, o)
+            as_unrepaired[fid] += 1
+            what = "%s: %s%s" % (fid, FINDING_TEXT[fid], (" [monitor: %s]" % bad[0][:300]) if bad else "")
+            if len([h for h in finding_hits[fid] if h[0]]) < 2 or (bad and len(finding_hits[fid]) < 40):
+                obj = {"kind": "property-violated-on-implementation" if bad else "matches-unrepaired-model",
+                       "finding": fid, "what": what, "matches_prefix_model": True, "theorem": FINDING_THEOREM[fid],
+                       "monitor": bad[0] if bad else None,
+                       "case": case.to_json(), "options": o,
+                       "uftrace_args": uft_args(o, ["<dir of case %d>" % k for k in range(len(cases))]),
+                       "impl_table": impl[:12], "repaired_model_table": model[:12], "unrepaired_model_table": model_pre[:12]}
+                if o.get("diff") is not None and o["diff"] != ci:
+                    obj["diff_case"] = cases[o["diff"]].to_json()
+                # smallest directories with a failing monitor first
+                finding_hits[fid].append((bool(bad), sum(len(t) for t in case.tasks), ci, what, obj))
+            continue
         if bad:
             report("monitor", ci, o, bad[0], {"theorem": bad[1], "impl_table": impl[:12],
                                               "model_table": (model or [])[:12]}, False)
             continue
-        if model is not None and impl != model and kind in ("diff", "difffull") and not o.get("noabs") \
-                and o.get("column") in (None, 2) and sorted(impl) == sorted(model) and abs_tie(mr, o):
-            # |+d| = |-d|: cmp_diff says "smaller" in both directions (utils/report.c:363-367), the row
-            # order then depends on the shape of the red-black tree, which the list model does not have
+        if tie_only(model, mr):
             st["diff_order_ambiguous"] += 1
             continue
         if model is None or fields != want_fields or impl != model:
             report("corr", ci, o, "printed table differs from the model's",
                    {"fields_printed": fields, "fields_expected": want_fields, "impl_table": impl[:14],
                     "model_table": (model or [ml[:200]])[:14], "theorem": "correspondence(Report model)"}, True)
+
+    for fid, hits in finding_hits.items():
+        if not hits:
+            continue
+        hits.sort(key=lambda h: (not h[0], h[1], h[2]))
+        kf = [f for f in C.known_findings("C08") if f.get("id") == fid]
+        if kf:
+            C.known(ctx, kf[0], "%s (%d tables like the unrepaired model, e.g. case %s)"
+                    % (hits[0][3][:400], as_unrepaired[fid], cases[hits[0][2]].name))
+            continue
+        for n, h in enumerate(hits[:2]):
+            C.violation(ctx, "%s-case%d-%d" % (fid, h[2], n + 1), h[4], no_failing_input=not h[0])
 
     nrec = sum(len(t) for c in cases for t in c.tasks)
     ctx.coverage.update({
@@ -828,7 +1245,14 @@ def run(ctx):
                 "late = starts in the middle, lost = LOST records (+ dropped records), inv = inverted timestamps, "
                 "ovf = max_stack 1..6, big = durations up to minutes (not exactly printable). Per directory: default, "
                 "-f all, --avg-total, --avg-self, --task, --diff self (compact/full), -f all -s <each key>, random "
-                "-s chains / -f lists, --diff against another directory with --sort-column/--diff-policy. "
+                "-s chains / -f lists, --diff against another directory with --sort-column/--diff-policy (abs/no-abs, "
+                "compact/full, percent: against itself and against another directory with each sort key in turn). "
+                "tids = 2-5 tasks with tids from 7..100000 (99/100, 999/1000 ...): --task with each task sort key, chains, "
+                "-f tid,func. Name-keyed family (nwf/nopen/nlate + fixed shapes): one symbol table per run with 12 "
+                "addresses: `dup` twice in the executable and once in a second module, 5 symbols with names drawn from a "
+                "pool of 6 in either module, a second address inside one symbol, two addresses without symbol inside the "
+                "executable's map and one outside every map; walks over 3-12 of them with direct/mutual recursion; the same "
+                "option sets; every such invocation is compared with the repaired AND the unrepaired model. "
                 "distinct = distinct (directory, option set) pairs",
         "data_directories": len(cases), "corpus_cases": ncorpus, "records_total": nrec,
         "invocations_by_category": bycat,
@@ -840,6 +1264,16 @@ def run(ctx):
         "diff_tables_compared_as_multisets_because_of_abs_ties": st["diff_order_ambiguous"],
         "repeated_sort_key_runs": st["dup_jobs"], "repeated_key_like_repaired_model": st["dup_as_repaired"],
         "repeated_key_like_unrepaired_model_F_C08_DUP": st["dup_as_unrepaired"],
+        "name_keyed_directories": len([c for c in cases if c.tab is not None]),
+        "name_keyed_symbol_table": {str(a): "%s@%x" % (tab.name(a), tab.ent[a]["addr"]) for a in sorted(tab.ent)},
+        "multi_digit_tid_directories": len([c for c in cases if c.cat == "tids"]),
+        "jobs_run_against_repaired_and_unrepaired_model": st["flag_jobs"],
+        "jobs_where_the_two_models_differ": st["flag_jobs_models_differ"],
+        "tables_like_unrepaired_model": dict(as_unrepaired),
+        "name_keyed_oracle_rows_checked": st["named_oracle_rows"],
+        "total_le_toplevel_checked": st["total_le_wall_checked"],
+        "task_tables_sorted_checked": st["task_sorted_checked"],
+        "percent_policy_invocations": st["pct_jobs"],
         "model_code_disagreements": st["disagree"], "monitor_failures_on_impl": st["monitor"],
         "exhaustive": False,
         "samples": samples,
@@ -848,7 +1282,11 @@ def run(ctx):
         "data directories are synthesized (lib/datadir.py): user records only, one session, no kernel/perf/sched data",
         "no filters/triggers/-D/-t/--time-range/--no-libcall; symbol table maps every recorded address to one function",
         "stdv columns (double) are never compared; times >= 1 ms are compared as printed (3 decimals of the unit)",
-        "monitors (tree oracle) apply to well-formed categories wf/open/big; lost/inv/ovf/late are compared with the model only",
+        "monitors (tree oracle) apply to well-formed categories wf/open/big/tids/nwf/nopen; lost/inv/ovf/late/nlate are compared with the model only",
+        "a row of the report is a symbol NAME: its invocations are those of every address resolving to that name, "
+        "outermost = not running inside another invocation of the same row (oracle and theorems c08_named_*)",
+        "percent policy: cmp_pcnt computes in double; the model compares exact fractions (equal for figures < 2^26: "
+        "directories of category big are not used with it); N/A cells = a zero figure",
     ]
     return C.finish(ctx)
 
@@ -875,6 +1313,25 @@ def replay(ctx, path):
     print("uftrace report", " ".join(uft_args(o, dirs)), "-> rc", rc)
     print(out)
     print(err)
-    ml = C.run_model("C08", [model_query(cases, 0, o)])
+    q = model_query(cases, 0, o)
+    if "{FIX}" in q:
+        ml = C.run_model("C08", [q.replace("{FIX}", "1"), q.replace("{FIX}", "0")])
+        print("model (repaired):  ", ml[0][:2000])
+        print("model (unrepaired):", ml[1][:2000])
+        kind = kind_of(o)
+        parsed = parse_table(out, kind, bool(o.get("pct"))) if rc == 0 else None
+        if parsed is not None:
+            fields, impl = canon_impl(parsed, kind, bool(o.get("pct")))
+            tabs = []
+            for line in ml:
+                if kind in ("diff", "difffull"):
+                    tabs.append(canon_drows(cases[0], parse_model_drows(line), fields, kind, bool(o.get("pct"))))
+                else:
+                    tabs.append(canon_rows(cases[0], parse_model_rows(line), fields, kind))
+            print("implementation:", "like the repaired model" if impl == tabs[0] else
+                  "like the UNREPAIRED model (%s)" % r.get("finding") if impl == tabs[1] else "like neither model")
+            return 0 if impl == tabs[0] else 1
+        return 1
+    ml = C.run_model("C08", [q])
     print("model:", ml[0][:2000])
     return 0
